@@ -5,6 +5,7 @@ import (
 	"go/ast"
 	"go/token"
 	"go/types"
+	"os"
 	"sort"
 	"strings"
 
@@ -159,6 +160,27 @@ func bufferAccesses(p Path, buf, offset string) []BufAccess {
 			continue
 		}
 		addr := e.Args[0]
+		if addr.Op == "ptr" && addr.Cell != nil && addr.Cell.Sym && addr.Cell.Name != buf && addr.Cell.Val != nil && addr.Cell.Val.Op == "slice" && addr.Cell.Val.Args[0].String() == buf {
+			// a store through a named view of the buffer (field := bytes[offset:offset+4]; field[i] = b): the view's
+			// extent is what the field code may touch
+			v := addr.Cell.Val
+			a := BufAccess{What: "slice", Hi: -1, Text: v.String(), Pos: e.Pos}
+			if v.Args[1] != nil {
+				x, abs, ok := classify(v.Args[1])
+				a.Lo, a.Abs, a.Unrel = x, abs, !ok
+			} else {
+				a.Abs = true
+			}
+			if v.Args[2] != nil {
+				x, abs, ok := classify(v.Args[2])
+				a.Hi = x
+				if !ok || (abs != a.Abs && v.Args[1] != nil) {
+					a.Unrel = true
+				}
+			}
+			add(a)
+			continue
+		}
 		if addr.Op != "ptr" || addr.Cell == nil || !addr.Cell.Sym || addr.Cell.Name != buf || len(addr.Path) != 1 {
 			continue
 		}
@@ -843,6 +865,9 @@ func analyseUnmarshal(p *Program, kf *KindFacts) {
 			m := map[string]*Term{}
 			flatten("r", pa.Results[0], m, true)
 			isZero := len(m) == 1 && (m["r"] != nil && (m["r"].Name == "zero" || m["r"].Name == "nil"))
+			if isZero && os.Getenv("UHLINT_DEBUG") == "K9" {
+				fmt.Fprintf(os.Stderr, "K9 %s zero path: %s\n", kf.Name, pa.State.Describe())
+			}
 			if isZero {
 				for k, v := range pa.State.Strs {
 					if v.eq != nil && strings.Contains(k, "bcd.Decode") {
@@ -855,6 +880,45 @@ func analyseUnmarshal(p *Program, kf *KindFacts) {
 							kf.DecZeroSet = append(kf.DecZeroSet, "bytes:"+img)
 						}
 					}
+				}
+				// the field compared as a whole with a constant in another guise: string(b[0:n]) == "...", or the
+				// integer a byte-order helper reads from b[0:n] pinned to one value
+				for k, v := range pa.State.Strs {
+					if v.eq != nil && strings.HasPrefix(k, "conv<string>(b[0:") && strings.HasSuffix(k, "])") {
+						var n int
+						if _, err := fmt.Sscanf(k, "conv<string>(b[0:%d])", &n); err == nil && n == len(*v.eq) {
+							kf.DecZeroSet = append(kf.DecZeroSet, "bytes:"+fmt.Sprintf("%x", *v.eq))
+						}
+					}
+				}
+				for k, reg := range pa.State.Ints {
+					if len(reg) != 1 || reg[0].Lo != reg[0].Hi {
+						continue
+					}
+					t := pa.State.IntT[k]
+					if t == nil || t.Op != "call" || len(t.Args) == 0 {
+						continue
+					}
+					en, bits := endianOf(t.Name), uintBits(t.Name)
+					a := t.Args[len(t.Args)-1]
+					if en == "" || bits == 0 || a.Op != "slice" || a.Args[0].String() != "b" || a.Args[2] == nil {
+						continue
+					}
+					if lo, ok := a.Args[1].Int64(); a.Args[1] != nil && (!ok || lo != 0) {
+						continue
+					}
+					if hi, ok := a.Args[2].Int64(); !ok || hi != int64(bits/8) {
+						continue
+					}
+					img := ""
+					for i := 0; i < bits/8; i++ {
+						sh := uint(8 * i)
+						if en == "be" {
+							sh = uint(bits - 8 - 8*i)
+						}
+						img += fmt.Sprintf("%02x", (uint64(reg[0].Lo)>>sh)&0xff)
+					}
+					kf.DecZeroSet = append(kf.DecZeroSet, "bytes:"+img)
 				}
 			}
 		}
@@ -946,4 +1010,17 @@ func uniq(s []string) []string {
 		}
 	}
 	return out
+}
+
+// uintBits: the width of the integer a byte-order helper reads ((binary.bigEndian).Uint32 -> 32); 0 otherwise.
+func uintBits(name string) int {
+	bits := 0
+	if i := strings.Index(name, ".Uint"); i >= 0 {
+		fmt.Sscanf(name[i+5:], "%d", &bits)
+	}
+	switch bits {
+	case 16, 32, 64:
+		return bits
+	}
+	return 0
 }
